@@ -31,7 +31,19 @@ def structure_label(co):
     return "[" + ",".join("N" if c is None else str(c) for c in co) + "]"
 
 
+def distlike_laws(cx):
+    """quantified (linear) forms of the DistLike laws, needed where terms only occur under invariants"""
+    CDF_, PDF_, ICDF_ = DistLike.fns()
+    i = z3.Int("law_i")
+    p, g, x = z3.Reals("law_p law_g law_x")
+    cx.fact(z3.ForAll([i, p, g], z3.Implies(z3.And(p > 0, p < 1), CDF_(i, ICDF_(i, p, g), g) == p), patterns=[ICDF_(i, p, g)]),
+            "DistLike:CDF(ICDF(p,g),g)=p on (0,1)")
+    phi = T.uf("sp_norm_cdf", "real", "real", "real", "real")
+    cx.fact(z3.ForAll([x], z3.And(phi(x, 0, 1) > 0, phi(x, 0, 1) < 1), patterns=[phi(x, 0, 1)]), "scipy:0<Phi<1 for finite argument")
+
+
 def make_model(cx, conditional_on, name="model"):
+    distlike_laws(cx)
     n = len(conditional_on)
     dists = [DistLike(i, conditional_on[i] is not None) for i in range(n)]
     m = SObj(J + "GlobalHierarchicalModel", {
@@ -105,6 +117,7 @@ class DistSeq(Opaque):
 
 
 def make_symbolic_model(cx, name="model", min_dim=1):
+    distlike_laws(cx)
     n = cx.sym("n_dim", "int")
     cx.assume(T.ge(n, min_dim), "well_formed: n_dim >= 1")
     cond = CondOn(cx, n)
